@@ -159,6 +159,7 @@ func (c *untypedConstraint) ProcessPostCommit(s boltz.UntypedEntityChangeState) 
 type expEvent struct {
 	Store, Type, Id, Digest string
 	Optional                bool // extended child store event for an entity without child data: not judged
+	AnyType                 bool // exactly one event on this store for the id; created or updated both describe it
 }
 
 var c08Styles = []string{"AddListener", "AddListener(async)", "AddEntityEventListener", "AddEntityEventListenerF(async)", "AddEntityIdListener", "AddEntityConstraint", "AddUntypedEntityConstraint"}
@@ -195,6 +196,9 @@ func runC08(c *core.Ctx, idx int) {
 	r := c.Rand()
 	cfg := c15Configs[idx%len(c15Configs)]
 	e, err := kmodel.NewEngine(c, cfg)
+	if e != nil {
+		e.M.Upgrade, e.M.UpgradePlainOnly = true, true // creates through a child store over plain parent entities are generated
+	}
 	if err != nil {
 		c.Violation("C08 setup", err.Error(), nil)
 		return
@@ -302,7 +306,12 @@ func runC08(c *core.Ctx, idx int) {
 			case "create":
 				post := m.Ents[root][op.Id]
 				out = append(out, expEvent{Store: op.Store, Type: "created", Id: op.Id, Digest: modelDigest(e, op.Store, post)})
-				if op.Store != root {
+				if op.Store != root && pre != nil {
+					// over an entity that already existed in the parent store: the child part is created, the parent store
+					// gets exactly one event for the change (whether it calls it a create or an update is not judged)
+					out = append(out, expEvent{Store: root, Type: "created", Id: op.Id, AnyType: true})
+					c.Cover("event", "parent-event-for-child:created-over-existing")
+				} else if op.Store != root {
 					out = append(out, expEvent{Store: root, Type: "created", Id: op.Id, Digest: modelDigest(e, root, post)})
 					c.Cover("event", "parent-event-for-child:created")
 				}
@@ -376,12 +385,34 @@ func runC08(c *core.Ctx, idx int) {
 		want := map[string]int{}
 		optional := map[string]bool{}
 		optionalIds := map[string]int{} // number of not-judged events per (store, id): multi-type listeners may or may not see them
+		anyType := map[string]bool{}
+		for _, ev := range exp {
+			if ev.AnyType {
+				anyType[ev.Store+"|"+ev.Id] = true
+			}
+		}
+		optionalEv := map[string]bool{} // (store, type, id) with a not-judged event in this transaction
 		for _, ev := range exp {
 			if ev.Optional {
+				optionalEv[ev.Store+"|"+ev.Type+"|"+ev.Id] = true
+			}
+		}
+		for _, ev := range exp {
+			if ev.Optional {
+				optionalIds[ev.Store+"|"+ev.Id]++
+			} else if optionalEv[ev.Store+"|"+ev.Type+"|"+ev.Id] {
+				// the same (store, type, id) also has a not-judged event in this transaction (delete, re-create and delete
+				// again through an extended store): deliveries cannot be told apart, none of them is judged
+				ev.Optional = true
 				optionalIds[ev.Store+"|"+ev.Id]++
 			}
 			for _, style := range c08Styles {
 				dg := ev.Digest
+				if ev.AnyType || (anyType[ev.Store+"|"+ev.Id] && (ev.Type == "created" || ev.Type == "updated") && !ev.Optional) {
+					// every create / update event of such an id on this store is counted without looking at its type or payload
+					want[strings.Join([]string{style, ev.Store, "created-or-updated", ev.Id, ""}, "|")]++
+					continue
+				}
 				if style == "AddEntityIdListener" {
 					dg = ""
 				}
@@ -411,6 +442,10 @@ func runC08(c *core.Ctx, idx int) {
 				continue
 			}
 
+			if anyType[d.Store+"|"+d.Id] && (d.Type == "created" || d.Type == "updated") && !strings.HasPrefix(d.Style, "multi:") && !strings.HasPrefix(d.Style, "late:") {
+				have[strings.Join([]string{d.Style, d.Store, "created-or-updated", d.Id, ""}, "|")]++
+				continue
+			}
 			have[strings.Join([]string{d.Style, d.Store, d.Type, d.Id, d.Digest}, "|")]++
 			if d.InBody {
 				c.Violationf("C08 event delivered before the commit: "+d.Style+" "+d.Store+" "+d.Type, info, "%+v delivered while the transaction body was running (%s)", d, label)
